@@ -98,23 +98,120 @@ type c20Membership struct {
 // c20FilledFrom: set is a locally made map that is filled, before loop `before` starts, with every element of
 // one scanned list and not modified otherwise; returns that list.
 func c20FilledFrom(fn *ssa.Function, set ssa.Value, before *an.Loop) (ssa.Value, string) {
-	mm, ok := an.Unwrap(set).(*ssa.MakeMap)
+	set = an.Unwrap(set)
+	if os := c19Origins(set); len(os) == 1 {
+		set = os[0]
+	}
+	if call, isCall := set.(*ssa.Call); isCall {
+		return c20FilledByHelper(fn, call)
+	}
+	mm, ok := set.(*ssa.MakeMap)
 	if !ok {
-		return nil, "the set the requested indices are looked up in is not a locally built map"
+		return nil, "?the set the requested indices are looked up in is neither a locally built map nor the result of a helper of the package that builds one"
+	}
+	return c20FilledMap(fn, mm, before, nil)
+}
+
+// c20FilledByHelper: the set is the single result of an in-package helper that builds a map from a complete scan of
+// one of its parameters (`indexSet(list)`); the result is only read in the caller. Returns the argument bound to
+// that parameter.
+func c20FilledByHelper(fn *ssa.Function, call *ssa.Call) (ssa.Value, string) {
+	const notFollowed = "?the set the requested indices are looked up in is produced by a call that is not followed"
+	h := an.Orig(call.Call.StaticCallee())
+	if call.Call.IsInvoke() || h == nil || h.Pkg != fn.Pkg || len(h.Blocks) == 0 || len(h.Params) != len(call.Call.Args) ||
+		h.Signature.Results().Len() != 1 {
+		return nil, notFollowed
+	}
+	for _, ref := range *call.Referrers() {
+		switch r := ref.(type) {
+		case *ssa.Lookup, *ssa.DebugRef:
+		case *ssa.Store:
+			// kept in a local (read back through c19Origins)
+			if r.Val != ssa.Value(call) {
+				return nil, "the set of already requested indices is modified or handed out before use"
+			}
+		case *ssa.Call:
+			if bi, ok := r.Call.Value.(*ssa.Builtin); !ok || bi.Name() != "len" {
+				return nil, "the set of already requested indices is modified or handed out before use"
+			}
+		default:
+			return nil, "the set of already requested indices is modified or handed out before use"
+		}
 	}
 	var src ssa.Value
+	rets := an.Returns(h)
+	if len(rets) == 0 {
+		return nil, notFollowed
+	}
+	for _, r := range rets {
+		vals := c20RetVals(r)
+		if len(vals) != 1 {
+			return nil, notFollowed
+		}
+		v := an.Unwrap(vals[0])
+		if os := c19Origins(v); len(os) == 1 {
+			v = os[0]
+		}
+		mm, ok := v.(*ssa.MakeMap)
+		if !ok {
+			return nil, notFollowed
+		}
+		s, why := c20FilledMap(h, mm, nil, r)
+		if why != "" {
+			return nil, why
+		}
+		p, isParam := an.Unwrap(s).(*ssa.Parameter)
+		if !isParam {
+			if os := c19Origins(s); len(os) == 1 {
+				p, isParam = os[0].(*ssa.Parameter)
+			}
+		}
+		if !isParam {
+			return nil, "?the helper that builds the set of already requested indices does not fill it from one of its parameters"
+		}
+		idx := -1
+		for i, hp := range h.Params {
+			if hp == p {
+				idx = i
+			}
+		}
+		if idx < 0 {
+			return nil, notFollowed
+		}
+		arg := call.Call.Args[idx]
+		if src != nil && !c20SameVar(src, arg) {
+			return nil, "the set of already requested indices is filled from more than one list"
+		}
+		src = arg
+	}
+	return src, ""
+}
+
+// c20FilledMap: the locally made map mm is filled with every element of one scanned list, the scan being complete
+// before loop `before` starts (or before return `ret`), and is not modified otherwise; returns that list.
+func c20FilledMap(fn *ssa.Function, mm *ssa.MakeMap, before *an.Loop, ret *ssa.Return) (ssa.Value, string) {
+	var src ssa.Value
 	nUp := 0
-	for _, ref := range *mm.Referrers() {
+	uses, uwhy := c20MapUses(mm)
+	if uwhy != "" {
+		return nil, uwhy
+	}
+	for _, ref := range uses {
 		switch r := ref.(type) {
 		case *ssa.MapUpdate:
 			nUp++
+			if r.Parent() != fn {
+				return nil, "?the set of already requested indices is filled inside a function literal, which is not followed"
+			}
 			l2 := an.InnermostLoop(fn, r.Block())
 			switch {
 			case l2 == nil || !c19LoopElem(l2, r.Key):
 				return nil, "the set of already requested indices receives a key that is not an element of a scanned list"
 			case !c20LoopClosed(l2) || !c19LoopFromStart(l2):
 				return nil, "the scan of the stored requestedIdxs can stop early"
-			case !l2.Header.Dominates(before.Header) || l2.Body[before.Header]:
+			case before != nil && (!l2.Header.Dominates(before.Header) || l2.Body[before.Header]):
+				return nil, "the set of already requested indices is not complete before the requested indices are examined"
+			case ret != nil && (!l2.Header.Dominates(ret.Block()) || l2.Body[ret.Block()]):
 				return nil, "the set of already requested indices is not complete before the requested indices are examined"
 			}
 			for _, la := range l2.Latches {
@@ -127,6 +224,15 @@ func c20FilledFrom(fn *ssa.Function, set ssa.Value, before *an.Loop) (ssa.Value,
 			}
 			src = l2.RangeColl()
 		case *ssa.Lookup, *ssa.DebugRef:
+		case *ssa.Return:
+			if r != ret {
+				return nil, "the set of already requested indices is modified or handed out before use"
+			}
+		case *ssa.Store:
+			// the result slot of a function with defers, or a local the map is kept in (its loads are among the uses)
+			if _, isAl := r.Addr.(*ssa.Alloc); !isAl || r.Val != ssa.Value(mm) {
+				return nil, "the set of already requested indices is modified or handed out before use"
+			}
 		case *ssa.Call:
 			if bi, ok := r.Call.Value.(*ssa.Builtin); !ok || bi.Name() != "len" {
 				return nil, "the set of already requested indices is modified or handed out before use"
@@ -139,6 +245,167 @@ func c20FilledFrom(fn *ssa.Function, set ssa.Value, before *an.Loop) (ssa.Value,
 		return nil, "the set of already requested indices is never filled"
 	}
 	return src, ""
+}
+
+// c20MapUses lists the instructions using the map made by mm: its direct referrers and, when the map is kept in a
+// variable that is assigned once (a local captured by a function literal becomes such a cell), the users of every
+// load of that variable, in the declaring function and in the literals capturing it.
+func c20MapUses(mm *ssa.MakeMap) ([]ssa.Instruction, string) {
+	var out []ssa.Instruction
+	var cells []ssa.Value
+	for _, ref := range *mm.Referrers() {
+		out = append(out, ref)
+		if st, ok := ref.(*ssa.Store); ok && st.Val == ssa.Value(mm) {
+			if al, isAl := st.Addr.(*ssa.Alloc); isAl {
+				if len(c19StoresTo(al, 0)) != 1 {
+					return nil, "?the variable holding the set of already requested indices is assigned more than once"
+				}
+				cells = append(cells, al)
+			}
+		}
+	}
+	seen := map[ssa.Value]bool{}
+	for len(cells) > 0 {
+		cell := cells[0]
+		cells = cells[1:]
+		if seen[cell] || cell.Referrers() == nil {
+			continue
+		}
+		seen[cell] = true
+		for _, ref := range *cell.Referrers() {
+			switch r := ref.(type) {
+			case *ssa.UnOp:
+				if r.Op == token.MUL && r.Referrers() != nil {
+					out = append(out, *r.Referrers()...)
+				}
+			case *ssa.MakeClosure:
+				if cl, ok := r.Fn.(*ssa.Function); ok {
+					for i, b := range r.Bindings {
+						if b == cell && i < len(cl.FreeVars) {
+							cells = append(cells, cl.FreeVars[i])
+						}
+					}
+				}
+			case *ssa.Store, *ssa.DebugRef:
+			default:
+				return nil, "?the variable holding the set of already requested indices is used in a form that is not followed"
+			}
+		}
+	}
+	return out, ""
+}
+
+// c20HelperMembership: call is a call, inside the scan of the request set, of a boolean helper of the package (a
+// function or a function literal) that receives the examined element and tests its membership by a comma-ok lookup
+// or slices.Contains on its parameter; the helper's result is that test or its negation on every path.
+func c20HelperMembership(fn *ssa.Function, l *an.Loop, call *ssa.Call, isElem func(ssa.Value) bool) (c20Membership, bool) {
+	var h *ssa.Function
+	if os := c19Origins(call.Call.Value); len(os) == 1 {
+		switch f := os[0].(type) {
+		case *ssa.Function:
+			h = f
+		case *ssa.MakeClosure:
+			h, _ = f.Fn.(*ssa.Function)
+		}
+	}
+	h = an.Orig(h)
+	if call.Call.IsInvoke() || h == nil || len(h.Blocks) == 0 || h.Pkg != fn.Pkg || len(h.Params) != len(call.Call.Args) ||
+		h.Signature.Results().Len() != 1 || !types.Identical(h.Signature.Results().At(0).Type().Underlying(), types.Typ[types.Bool]) {
+		return c20Membership{}, false
+	}
+	pi := -1
+	for i, a := range call.Call.Args {
+		if isElem(a) {
+			pi = i
+		}
+	}
+	if pi < 0 {
+		return c20Membership{}, false
+	}
+	p := h.Params[pi]
+	isP := func(v ssa.Value) bool { return c19Only(v, p) }
+	toCaller := func(v ssa.Value) ssa.Value {
+		if os := c19Origins(v); len(os) == 1 {
+			if q, ok := os[0].(*ssa.Parameter); ok {
+				for i, hp := range h.Params {
+					if hp == q {
+						return call.Call.Args[i]
+					}
+				}
+			}
+			return os[0]
+		}
+		return v
+	}
+	type inner struct {
+		cond    ssa.Value
+		present bool
+		source  ssa.Value
+		set     ssa.Value
+	}
+	var tests []inner
+	for _, in := range an.Instrs(h, false) {
+		switch x := in.(type) {
+		case *ssa.Lookup:
+			if !x.CommaOk || !an.IsMapType(x.X.Type()) || !isP(x.Index) {
+				continue
+			}
+			for _, ref := range *x.Referrers() {
+				if ex, ok := ref.(*ssa.Extract); ok && ex.Index == 1 {
+					tests = append(tests, inner{cond: ex, present: true, set: toCaller(x.X)})
+				}
+			}
+		case *ssa.Call:
+			f := x.Call.StaticCallee()
+			if f != nil && len(x.Call.Args) == 2 && isP(x.Call.Args[1]) && an.FuncName(f) == "slices.Contains" {
+				tests = append(tests, inner{cond: x, present: true, source: toCaller(x.Call.Args[0])})
+			}
+		}
+	}
+	if len(tests) != 1 {
+		return c20Membership{}, false
+	}
+	t := tests[0]
+	// polarity of the helper's result with respect to the inner test
+	var res [2]map[string]bool
+	for i, truth := range []bool{false, true} {
+		w := &c19Walker{atom: func(_ *c19Walker, v ssa.Value) (int, bool, bool) {
+			if v == t.cond {
+				return 0, false, true
+			}
+			return 0, false, false
+		}, val: []bool{truth}}
+		w.ret = func(r *ssa.Return, w *c19Walker) string {
+			vals := c19RetVals(r)
+			if len(vals) != 1 {
+				return "?"
+			}
+			if b, ok := w.eval(vals[0], 0); ok {
+				if b {
+					return "true"
+				}
+				return "false"
+			}
+			return "?"
+		}
+		w.run(h.Blocks[0], nil)
+		res[i] = w.out
+	}
+	mb := c20Membership{cond: call}
+	switch {
+	case c19Is1(res[1], "true") && c19Is1(res[0], "false"):
+		mb.present = t.present
+	case c19Is1(res[1], "false") && c19Is1(res[0], "true"):
+		mb.present = !t.present
+	default:
+		return c20Membership{}, false
+	}
+	if t.set != nil {
+		mb.source, mb.why = c20FilledFrom(fn, t.set, l)
+	} else {
+		mb.source = t.source
+	}
+	return mb, true
 }
 
 // c20Memberships lists the membership tests of elem inside loop l.
@@ -168,6 +435,12 @@ func c20Memberships(fn *ssa.Function, l *an.Loop, elem ssa.Value) []c20Membershi
 				}
 			}
 		case *ssa.Call:
+			if _, isB := x.Call.Value.(*ssa.Builtin); !isB && !x.Call.IsInvoke() {
+				if mb, ok := c20HelperMembership(fn, l, x, isElem); ok {
+					out = append(out, mb)
+					continue
+				}
+			}
 			f := x.Call.StaticCallee()
 			if f == nil || len(x.Call.Args) != 2 || !isElem(x.Call.Args[1]) {
 				continue
@@ -386,7 +659,39 @@ func c20MissingProvenance(fn *ssa.Function, m ssa.Value) c20Missing {
 			elem = ld
 		}
 		ms := c20Memberships(f, l, elem)
+		// absence of a recognised lookup is evidence only if the examined index is not handed to a call that is not followed
+		opaque := ""
+		for _, in := range an.Instrs(f, false) {
+			call, isCall := in.(*ssa.Call)
+			if !isCall || !l.Body[in.Block()] {
+				continue
+			}
+			if _, isB := call.Call.Value.(*ssa.Builtin); isB {
+				continue
+			}
+			known := false
+			for _, mb := range ms {
+				if mb.cond == ssa.Value(call) {
+					known = true
+				}
+			}
+			if sc := call.Call.StaticCallee(); sc != nil && (an.FuncName(sc) == "slices.Contains" || an.FuncName(sc) == "slices.Index") {
+				known = true
+			}
+			if known {
+				continue
+			}
+			for _, a := range call.Call.Args {
+				if an.Equiv(a, elem) || c20SameVar(a, elem) {
+					opaque = "the examined index is handed to " + an.CalleeName(&call.Call) + ", which is not followed as a membership test"
+				}
+			}
+		}
 		if len(ms) == 0 {
+			if opaque != "" {
+				res.unsure = opaque
+				continue
+			}
 			fail("an index is added to the missing set without having been looked up (and found absent) in the set of stored requested indices")
 			continue
 		}
@@ -417,6 +722,10 @@ func c20MissingProvenance(fn *ssa.Function, m ssa.Value) c20Missing {
 			}
 		}
 		if !decided {
+			if opaque != "" {
+				res.unsure = opaque
+				continue
+			}
 			fail("an index is added to the missing set without having been looked up (and found absent) in the set of stored requested indices")
 		}
 	}
@@ -427,8 +736,8 @@ func c20MissingProvenance(fn *ssa.Function, m ssa.Value) c20Missing {
 func c20HitMiss(c *rt.Ctx, role c20Role) {
 	fn := c20Fn(c, role.entry)
 	epochP := fn.Params[2]
-	fetch := c20Fn(c, "fetch"+role.name+"Duties")
-	store := c20Fn(c, "storeOrAmend"+role.name+"Duties")
+	fetch := c20Helper(c, role, "fetch")
+	store := c20Helper(c, role, "storeOrAmend")
 	fetchCall := c.OneCall(fn, func(cc *ssa.CallCommon) bool { return cc.StaticCallee() == fetch }, fetch.Name(), false)
 	storeCall := c.OneCall(fn, func(cc *ssa.CallCommon) bool { return cc.StaticCallee() == store }, store.Name(), false)
 	beacon := c.OneCall(fn, an.Invoke(c20Pkg+".Client."+role.beacon), "eth2Cl."+role.beacon, false)
@@ -595,9 +904,13 @@ func c20HitMiss(c *rt.Ctx, role c20Role) {
 		mp.prevBad = "the set of already requested indices is not filled from the requestedIdxs stored for the epoch (a validator without a duty would be asked for again, or a never-asked one taken as known)"
 	}
 	if mp.prevBad == "" && mp.prev == nil && mp.bad == "" {
-		mp.prevBad = "cannot determine the list the requested indices are compared with"
+		mp.prevBad = "?cannot determine the list the requested indices are compared with"
 	}
-	c.Check(role.entry+" already-requested = stored requestedIdxs", fn.Pos(), mp.prevBad == "", mp.prevBad)
+	if strings.HasPrefix(mp.prevBad, "?") {
+		c.Unsure(role.entry+" already-requested = stored requestedIdxs", fn.Pos(), strings.TrimPrefix(mp.prevBad, "?"))
+	} else {
+		c.Check(role.entry+" already-requested = stored requestedIdxs", fn.Pos(), mp.prevBad == "", mp.prevBad)
+	}
 
 	// the beacon request: what its Indices hold when the request is reached with / without a cached epoch. A phi
 	// is split by incoming edge only where the two sides merge.
